@@ -159,6 +159,11 @@ class System(ListeningSystem, SendingSystem):
 
         if len(self.msg) == 8:
             self.msg_length = utils.string_to_uint(self.msg[-4:])
+            if self.msg_length < 20:
+                # Header (16 bytes) plus end flag (4 bytes): no message
+                # can be shorter, it would be awaited forever
+                self._set_default()
+                raise ValueError('Declared message length too short.')
 
         if len(self.msg) == 12:
             cmd_counter = utils.string_to_uint(self.msg[-4:])
